@@ -1180,9 +1180,9 @@ fn main() {
     let vnode_list: Vec<u32> = if s.thorough() {
         vec![1, 2, 3, 7, 16, 50, 100, 150, 199, 200]
     } else {
-        vec![1, 2, 7, 50, 150, 200]
+        vec![1, 2, 7, 50, 200]
     };
-    let nkeys = if s.thorough() { key_pool().len() } else { 17 + 300 };
+    let nkeys = if s.thorough() { key_pool().len() } else { 17 + 200 };
     let scale_pct = std::env::var("VERIF_SCALE").ok().and_then(|x| x.parse::<usize>().ok());
     let mut perm_items: Vec<PermCase> = Vec::new();
     for ids in &id_sets {
@@ -1232,7 +1232,7 @@ fn main() {
     let thorough = s.thorough();
     s.run_cases(
         "ring_placement",
-        s.scale(8_000, 200_000),
+        s.scale(4_000, 100_000),
         || {
             if thorough {
                 ring_case(12, 600..=1000).boxed()
@@ -1248,7 +1248,7 @@ fn main() {
         "router_new",
         "GossipRouter::new(full peer map, selective) for every member as sender: route_deltas / route_with_stats / GossipState::with_router+queue_deltas+drain_outbound deliver each delta to get_replicas(key) minus sender exactly once and to nobody else",
     );
-    s.run_cases("router_new", s.scale(30_000, 1_000_000), router_case, check_router_case);
+    s.run_cases("router_new", s.scale(15_000, 1_000_000), router_case, check_router_case);
 
     s.describe_check(
         "router_from_config",
@@ -1256,7 +1256,7 @@ fn main() {
     );
     s.run_cases(
         "router_from_config",
-        s.scale(10_000, 400_000),
+        s.scale(6_000, 400_000),
         || {
             (
                 1u64..=12,
